@@ -9,7 +9,7 @@ import (
 )
 
 // phase.stalehandles (C09, C10, C08): ir.CompactTypes / ir.ReorderTypes renumber
-// the type arena. Whatever the lowerer runs after them (in the function that
+// the type arena and ir.CompactConstants the constant arena. Whatever the lowerer runs after them (in the function that
 // calls them, in source order - the calls sit on its straight-line tail) works
 // on new handles, so it must not consult the lowerer's own tables of
 // TypeHandles filled before the renumbering: fields of the receiver whose type
@@ -17,7 +17,7 @@ import (
 // from such a table indexes the new arena at an unrelated slot or past its end
 // (var<private> v: S = S(vec2(1, 2), 3) panicked in buildGlobalExprFromAST).
 func (c *Ctx) runStaleHandles(r *Report, rule string, pkg string, exceptions map[string]string) {
-	renumber := map[string]bool{"CompactTypes": true, "ReorderTypes": true}
+	renumber := map[string]bool{"CompactTypes": true, "ReorderTypes": true, "CompactConstants": true}
 	nSites, nTails := 0, 0
 	for _, fn := range c.allFuncs() {
 		if fn.Pkg.Rel != pkg || fn.Obj == nil || fn.Decl.Body == nil {
@@ -93,7 +93,7 @@ func (c *Ctx) runStaleHandles(r *Report, rule string, pkg string, exceptions map
 				if why := exceptions[cons]; why != "" {
 					r.exc(rule, cons, c.pos(sel.Pos()), why)
 				} else {
-					r.viol(rule, cons, c.pos(sel.Pos()), g.id()+" runs after "+fn.id()+" has renumbered the type arena (ir.CompactTypes / ir.ReorderTypes) and reads "+fld.Name()+", a table of type handles filled before the renumbering: the handle indexes the new arena at an unrelated slot or past its end")
+					r.viol(rule, cons, c.pos(sel.Pos()), g.id()+" runs after "+fn.id()+" has renumbered the type arena (ir.CompactTypes / ir.ReorderTypes) and reads "+fld.Name()+", a table of type / constant handles filled before the renumbering: the handle indexes the new arena at an unrelated slot or past its end")
 				}
 				return true
 			})
@@ -112,7 +112,7 @@ func isStaleTypeTable(t types.Type) bool {
 		return true
 	}
 	if m, ok := t.Underlying().(*types.Map); ok {
-		return irTypeName(m.Elem()) == "TypeHandle"
+		return irTypeName(m.Elem()) == "TypeHandle" || irTypeName(m.Elem()) == "ConstantHandle"
 	}
 	return false
 }
